@@ -170,8 +170,9 @@ def ob_project(t0: int, t1: int, a0: int, a1: int, nt: int, na: int) -> bool:
     def pick(v):
         return [k for k in range(3) if v == k][0]
 
-    tsel = [pick(t0), pick(t1)][: [k for k in range(3) if nt == k][0]]
-    asel = [pick(a0), pick(a1)][: [k for k in range(3) if na == k][0]]
+    fixed = h.P("fixed_counts")
+    tsel = [pick(t0), pick(t1)][: (fixed[0] if fixed else [k for k in range(3) if nt == k][0])]
+    asel = [pick(a0), pick(a1)][: (fixed[1] if fixed else [k for k in range(3) if na == k][0])]
     tasks = [b.task(clips[k], f) for k in tsel]
     anns = [b.clip_annotation(clips[k], f) for k in asel]
     o, rej = _construct(data.AnnotationProject,
@@ -202,8 +203,16 @@ def ob_clip_evaluation(same_clip: bool, s0: int, t0: int, s1: int, t1: int, s2: 
     ca = b.clip_annotation(clip, f, anns[:n_ann])
     cp = b.clip_prediction(clip if same_clip else other, f, preds[:n_pred])
 
+    dom = h.P("dom", 4)
+    if h.P("fix_clip"):
+        if not same_clip:
+            return True
+
     def pick(v):
-        return [k for k in range(4) if v == k][0]
+        hit = [k for k in range(dom) if v == k]
+        if not hit:
+            raise graph.Vacuous()
+        return hit[0]
 
     # choice 0 = None, 1 = own[0], 2 = own[1], 3 = foreign
     def side(v, pool):
@@ -214,7 +223,10 @@ def ob_clip_evaluation(same_clip: bool, s0: int, t0: int, s1: int, t1: int, s2: 
     matches = []
     srcs, tgts = [], []
     for (sv, tv) in sel:
-        src, tgt = side(sv, preds), side(tv, anns)
+        try:
+            src, tgt = side(sv, preds), side(tv, anns)
+        except graph.Vacuous:
+            return True
         if src is None and tgt is None:
             return True  # such a match cannot exist (ob_match_sides)
         matches.append(data.Match(uuid=b.uid(), source=src, target=tgt, affinity=0.0))
@@ -252,24 +264,34 @@ def plan():
                       twins=("accepted", "rejected", "edge")))
         obs.append(Ob("match-sides-" + route, ob_match_sides, "real", 120, dict(route=route), q,
                       twins=("accepted", "rejected")))
-        obs.append(Ob("project-membership-" + route, ob_project, "real", 1200, dict(route=route),
-                      q if route == "ctor" else ("thorough",), twins=("accepted", "rejected"), twin_timeout=200))
+        obs.append(Ob("project-membership-" + route, ob_project, "real", 2400, dict(route=route), ("thorough",),
+                      twins=("accepted", "rejected"), twin_timeout=300))
+        obs.append(Ob("project-membership-2x2-" + route, ob_project, "real", 900,
+                      dict(route=route, fixed_counts=[2, 2]), q if route == "ctor" else ("thorough",),
+                      twins=("accepted", "rejected"), twin_timeout=300))
         for n_ann in range(3):
             for n_pred in range(3):
                 for n_m in range(4):
-                    heavy = n_m == 3
                     if n_m > n_ann + n_pred:
-                        continue  # more matches than events: covered by duplicates at n_m = n_ann + n_pred + ... below
-                    tiers = ("thorough",) if heavy or route != "ctor" else q
-                    tw = ("rejected",) if (n_m == 0 and n_ann + n_pred > 0) else ("accepted", "rejected")
+                        continue
+                    can_accept = n_m >= max(n_ann, n_pred)
+                    tw = ("accepted", "rejected") if can_accept else ("rejected",)
+                    if n_ann + n_pred == 0:
+                        tw = ("accepted", "rejected")
+                    quick = route == "ctor" and n_m <= 1
                     obs.append(Ob("clip-evaluation-a%dp%dm%d-%s" % (n_ann, n_pred, n_m, route), ob_clip_evaluation,
-                                  "real", 3000 if heavy else 900,
-                                  dict(route=route, n_ann=n_ann, n_pred=n_pred, n_m=n_m), tiers, twins=tw,
-                                  twin_timeout=300))
+                                  "real", 6000 if n_m == 3 else 2400,
+                                  dict(route=route, n_ann=n_ann, n_pred=n_pred, n_m=n_m),
+                                  q if quick else ("thorough",), twins=tw, twin_timeout=900))
+        # quick versions of the two-match patterns: sides from {none, own 0, own 1}, clips equal
+        for (n_ann, n_pred) in ((1, 1), (2, 2), (2, 0)):
+            obs.append(Ob("clip-evaluation-a%dp%dm2-own-%s" % (n_ann, n_pred, route), ob_clip_evaluation, "real", 900,
+                          dict(route=route, n_ann=n_ann, n_pred=n_pred, n_m=2, dom=3, fix_clip=True),
+                          q if route == "ctor" else ("thorough",), twins=("accepted", "rejected"), twin_timeout=600))
         # duplicates beyond the number of events
-        obs.append(Ob("clip-evaluation-a1p0m2-%s" % route, ob_clip_evaluation, "real", 900,
-                      dict(route=route, n_ann=1, n_pred=0, n_m=2), q if route == "ctor" else ("thorough",),
-                      twins=("rejected",), twin_timeout=300))
+        obs.append(Ob("clip-evaluation-a1p0m2-dup-%s" % route, ob_clip_evaluation, "real", 900,
+                      dict(route=route, n_ann=1, n_pred=0, n_m=2, dom=3, fix_clip=True),
+                      q if route == "ctor" else ("thorough",), twins=("rejected",), twin_timeout=300))
     return obs
 
 
